@@ -37,6 +37,10 @@ CHECKS = {
    text="TLA+ spec AdvertisedLimits (advertised value per limit read from the ClientHello on the wire; a conformant peer consumes a limit up to its boundary; no local client error while within, the boundary is reachable, the client's own record equals the wire) model-checked by TLC; a lattice of fingerprint specs (built-in and derived, incl. suppressed parameters) x 7 user Config variants x 11 limit scenarios (stream / connection windows with slow and read-then-stall readers, stream counts, connection IDs incl. Retire-Prior-To replacement at the limit, DATAGRAM size, silence up to the advertised idle timeout) runs as real connections against the in-tree server; traces validated by TLC in collect mode.",
    note="Trusted: TLC, independent observer, in-tree server as conformant peer (the connection-ID scenario crafts NEW_CONNECTION_ID frames through the server's control-frame queue using the quiescent client state). 4 open known findings: limits are enforced from Config, not from what the spec advertises.",
    technique="TLA+ model checking (TLC) + configuration lattice executed as real connections + TLC trace validation"),
+ "C04": dict(engine="FlowControl", design="5 C04",
+   text="TLA+ spec FlowControl (receive side: accept iff within advertised, advertised limits monotone and = consumed + window, windows bounded, every consumed / abandoned byte credited to the connection exactly once; send side: new bytes within the largest limits seen, blocked once per limit) model-checked by TLC; three tiers bound to it: (1) component - TLC-enumerated call sequences and seeded walks on real stream flow controllers sharing a real connection flow controller, 4 window configurations incl. maximum below initial; (2) send-stream - real SendStreams with packetisation budgets, losses, MAX_* updates, reliable boundary / CancelWrite / STOP_SENDING; (3) wire - real connections where the in-tree server tries to overshoot limits that a fingerprint spec advertises differently per stream kind, judged from the receiver's qlog (FlowWire). All traces validated by TLC.",
+   note="Trusted: TLC, harness projections (window sizes, bytes read read in-package), qlog as faithful record of 1-RTT frames in the wire tier. Auto-tuning decisions are left open (a window may grow up to its maximum at any update).",
+   technique="TLA+ model checking (TLC) + TLC-enumerated / seeded stimuli replayed into the real code at three tiers + TLC trace validation"),
 }
 NA = {}
 
